@@ -4,6 +4,7 @@ import (
 	"database/sql"
 	"hash/fnv"
 	"net"
+	"os/exec"
 	"sync"
 
 	"github.com/coredhcp/coredhcp/logger"
@@ -79,4 +80,23 @@ var hostNameTexts = []string{
 
 func hostNameText(rng interface{ Intn(int) int }) []byte {
 	return []byte(hostNameTexts[rng.Intn(len(hostNameTexts))])
+}
+
+var straceOnce sync.Once
+var stracePath string
+
+// straceUsable returns the path of strace if it is installed AND may trace a child here (ptrace can be
+// switched off in a sandbox); engines that place faults with it skip those cases otherwise and say so in a
+// counter - a missing tool is not a verdict.
+func straceUsable() (string, bool) {
+	straceOnce.Do(func() {
+		st, err := exec.LookPath("strace")
+		if err != nil {
+			return
+		}
+		if exec.Command(st, "-f", "-q", "-e", "trace=none", "-o", "/dev/null", "/bin/true").Run() == nil {
+			stracePath = st
+		}
+	})
+	return stracePath, stracePath != ""
 }
